@@ -34,6 +34,7 @@ type Job struct {
 	MaxSec  int      `json:"max_sec,omitempty"`
 	Samples int      `json:"samples,omitempty"`
 	CapSec  int      `json:"cap_sec,omitempty"`
+	Retries int      `json:"retries,omitempty"`
 }
 
 // Found is a violating run.
